@@ -289,6 +289,62 @@ fn huge_roundtrips(thorough: bool) -> (Vec<Found>, u64) {
     (results.into_iter().flatten().collect(), n)
 }
 
+/// Many records / long keys: batches of n small updates (n around 2^8, 2^12, 2^16 and round decimal numbers) and
+/// single updates whose KEY is 255 .. 65 537 bytes long, through the four encodings (a u8/u16 count or length
+/// prefix, an index block that fills up, a chunked writer go wrong exactly at these sizes).
+fn many_roundtrips(thorough: bool) -> (Vec<Found>, u64) {
+    let counts: Vec<usize> = if thorough { vec![255, 256, 257, 999, 1000, 1001, 4095, 4096, 4097, 65_535, 65_536, 65_537] } else { vec![255, 256, 257, 1000, 4096, 4097, 65_535, 65_536, 65_537] };
+    let key_lens: Vec<usize> = vec![255, 256, 257, 65_535, 65_536, 65_537];
+    let mut items: Vec<(&'static str, usize)> = counts.iter().map(|c| ("count", *c)).collect();
+    items.extend(key_lens.iter().map(|k| ("keylen", *k)));
+    let results: Vec<Vec<Found>> = vh::par::par_map(&items, |_, (what, n)| {
+        let (what, n) = (*what, *n);
+        let mut found = Vec::new();
+        let batch: Vec<ReplicationDelta> = if what == "count" {
+            (0..n).map(|i| imgx::lww_delta(&format!("k{i}"), format!("v{i}").as_bytes(), 1 + i as u64, 1 + (i % 3) as u64)).collect()
+        } else {
+            let key: String = (0..n).map(|i| (b'a' + (i % 26) as u8) as char).collect();
+            vec![imgx::lww_delta(&key, b"v", 5, 1), imgx::lww_delta("after", b"t", 9, 1)]
+        };
+        let want: Vec<String> = batch.iter().map(imgx::canon).collect();
+        let mut bad = |enc: &str, why: String| {
+            found.push(Found {
+                sig: format!("roundtrip {enc} {}: {}", if what == "count" { "many-records" } else { "long-key" }, why.split(':').next().unwrap_or("differs")),
+                detail: format!("{} through {enc}: {why}", if what == "count" { format!("{n} small updates") } else { format!("an update whose key is {n} bytes long, followed by a small update") }),
+                replay: json!({"part": "many", "what": what, "n": n, "encoding": enc}),
+            })
+        };
+        match encode_wal(&batch).and_then(|img| read_wal(&img)) {
+            Ok(r) if r.len() == batch.len() && r.iter().map(|e| imgx::canon(&e.3)).collect::<Vec<_>>() == want => {}
+            Ok(r) => bad("wal", format!("decoded-different-data: {} of {} entries came back{}", r.len(), batch.len(), if r.len() == batch.len() { " altered" } else { "" })),
+            Err(e) => bad("wal", format!("error: {e}")),
+        }
+        match encode_segment(&batch).and_then(|img| read_segment(&img)) {
+            Ok((_, _, _, ds)) if ds.len() == batch.len() && ds.iter().map(imgx::canon).collect::<Vec<_>>() == want => {}
+            Ok((_, _, _, ds)) => bad("segment", format!("decoded-different-data: {} of {} records came back{}", ds.len(), batch.len(), if ds.len() == batch.len() { " altered" } else { "" })),
+            Err(e) => bad("segment", format!("error: {e}")),
+        }
+        let state: Vec<(String, ReplicatedValue)> = batch.iter().map(|d| (d.key.clone(), d.value.clone())).collect();
+        match encode_checkpoint(&state, 1_000, 4).and_then(|img| read_checkpoint(&img)) {
+            Ok((_, _, _, m)) if m.len() == batch.len() && batch.iter().all(|d| m.get(&d.key).map(imgx::canon) == Some(imgx::canon(&d.value))) => {}
+            Ok((_, _, _, m)) => bad("checkpoint", format!("decoded-different-data: {} of {} entries came back{}", m.len(), batch.len(), if m.len() == batch.len() { " altered" } else { "" })),
+            Err(e) => bad("checkpoint", format!("error: {e}")),
+        }
+        let msg = make_msg("DeltaBatch", batch.clone(), 1);
+        match msg.serialize().map_err(|e| e.to_string()).and_then(|b| GossipMessage::deserialize(&b).map_err(|e| e.to_string())) {
+            Ok(back) => {
+                if imgx::canon(&back) != imgx::canon(&msg) {
+                    bad("gossip", "decoded-different-data: message differs after the round trip".to_string());
+                }
+            }
+            Err(e) => bad("gossip", format!("error: {e}")),
+        }
+        found
+    });
+    let n = 4 * items.len() as u64;
+    (results.into_iter().flatten().collect(), n)
+}
+
 // ---------------------------------------------------------------------------------------------
 // comparison of what was read with what was written
 // ---------------------------------------------------------------------------------------------
@@ -806,6 +862,13 @@ fn replay(u: &Universe, path: &std::path::Path) -> ! {
                 .into_iter()
                 .find(|f| f.replay["size"].as_u64() == Some(size) && f.replay["what"].as_str() == Some(what.as_str()) && f.replay["encoding"].as_str() == Some(enc.as_str()))
         }
+        Some("many") => {
+            let (n, what, enc) = (r["n"].as_u64().unwrap_or(0), r["what"].as_str().unwrap_or("").to_string(), r["encoding"].as_str().unwrap_or("").to_string());
+            many_roundtrips(true)
+                .0
+                .into_iter()
+                .find(|f| f.replay["n"].as_u64() == Some(n) && f.replay["what"].as_str() == Some(what.as_str()) && f.replay["encoding"].as_str() == Some(enc.as_str()))
+        }
         _ => {
             eprintln!("unknown replay part");
             std::process::exit(2)
@@ -896,6 +959,12 @@ fn main() {
         rep.violation(f.sig, f.detail, f.replay);
     }
     rep.note(format!("huge payloads: {huge_count} round trips of strings / hash fields of up to {} bytes (sizes {:?}, the largest in the thorough tier only) through the 4 encodings", if thorough { 3 << 20 } else { (1 << 20) + 1 }, HUGE_SIZES));
+
+    let (many_found, many_count) = many_roundtrips(thorough);
+    for f in many_found {
+        rep.violation(f.sig, f.detail, f.replay);
+    }
+    rep.note(format!("many records / long keys: {many_count} round trips of batches of 255 .. 65 537 small updates and of keys of 255 .. 65 537 bytes through the 4 encodings"));
 
     let t_roundtrip = rep.elapsed_s();
     // ---- part 2: damage -----------------------------------------------------------------
